@@ -103,6 +103,7 @@ func newExec(s *scn.Scenario, opt Options) *exec {
 	x.sim.waitTask.Store(-1)
 	useNS = s.Cfg.NS
 	useMust = s.Cfg.Must
+	world.LooseMoveTo.Store(s.Cfg.LooseMoveTo)
 	// a new bindings map per run, shared by every Compile of the run (callers do
 	// share one map between goroutines); the xml prefix is deliberately not declared
 	nsMap = map[string]string{"x": "urn:x", "y": "urn:y"}
